@@ -153,7 +153,10 @@ def same_pairs(got, want):
 
 
 def show(x):
-    """concrete rendering for replay reports."""
+    """concrete rendering for replay reports (symbolic payloads are never
+    formatted: that would be an operation on a symbol outside tracing)."""
+    if not CONCRETE:
+        return None
     from harness.keys import K
     if isinstance(x, K):
         return 'K(%r)' % (x.v,)
